@@ -86,12 +86,28 @@ def register(T, repo):
     def in_rng(l, lo, hi):
         return forall(0, l.ln, lambda k: And(zint(lo) <= l.at(k),
                                              l.at(k) <= zint(hi)))
+    def all_rules(A):
+        ex, st = A['$ex'], A['$st']
+        if 'tex2txt.tex2txt' not in (ex.cur_func or ''):
+            return True
+        opts = st.env.get('opts')
+        if not isinstance(opts, Obj) or 'repl' not in opts.fields:
+            return True
+        r = opts.fields['repl']
+        r = r.val if isinstance(r, OptVal) else r
+        return bool(isinstance(r, TokList) and isinstance(A['lines'], TokList)
+                    and r.lid == A['lines'].lid)
+
     c = T.add(FContract(
         'yalafi.utils.replace_phrases', ghosts=rp_ghosts,
         params={'txt': StrS(name='txt'), 'pos': IListS(name='pos'),
                 'lines': ListS(StrS(name='line'), None, 'lines')},
         requires=[('len-eq', lambda A: zint(seq_len(A['txt'])) ==
-                   zint(A['pos'].ln))],
+                   zint(A['pos'].ln)),
+                  # C13 ("several rules applied in sequence"): tex2txt
+                  # hands the COMPLETE rule list of the options to
+                  # replace_phrases, in single- and multi-language mode
+                  ('all-rules-of-the-option-are-handed-over', all_rules)],
         result=lambda A: TupleS(StrS(), IListS()),
         ensures=[('len-eq', lambda A, r: zint(seq_len(r[0])) ==
                   zint(r[1].ln)),
